@@ -17,24 +17,26 @@ import (
 )
 
 type Engine struct {
-	repo          string
-	verifDir      string
-	fset          *token.FileSet
-	prog          *ssa.Program
-	pkgs          []*packages.Package
-	pkgByName     map[string]*types.Package
-	funcByKey     map[string]*ssa.Function
-	contracts     *ContractSet
-	cfgCache      map[*ssa.Function]*cfgInfo
-	wa            *writeAnalyzer
-	tags          map[string]int
-	tagNames      []string
-	funcIDs       map[*ssa.Function]int
-	bindingErrors []string
-	implCache     map[string][]*ssa.Function
-	srcCache      map[string][]string
-	namedTypes    []*types.Named
-	notes         []string
+	repo               string
+	verifDir           string
+	fset               *token.FileSet
+	prog               *ssa.Program
+	pkgs               []*packages.Package
+	pkgByName          map[string]*types.Package
+	funcByKey          map[string]*ssa.Function
+	contracts          *ContractSet
+	cfgCache           map[*ssa.Function]*cfgInfo
+	wa                 *writeAnalyzer
+	tags               map[string]int
+	tagNames           []string
+	funcIDs            map[*ssa.Function]int
+	bindingErrors      []string
+	implCache          map[string][]*ssa.Function
+	srcCache           map[string][]string
+	namedTypes         []*types.Named
+	notes              []string
+	immutableGlobal    map[string]bool     // heap keys of package variables written only by package initialisation
+	writtenOutsideInit map[string][]string // heap key -> functions (other than init) storing to it
 }
 
 const repoPrefix = "github.com/mithrandie/csvq"
@@ -114,6 +116,7 @@ func NewEngine(repo, verifDir string) (*Engine, error) {
 		}
 	}
 	sort.Slice(eng.namedTypes, func(i, j int) bool { return typeStr(eng.namedTypes[i]) < typeStr(eng.namedTypes[j]) })
+	eng.scanWrites()
 	for fn := range ssautil.AllFunctions(prog) {
 		key := shortName(fn.String())
 		if old, ok := eng.funcByKey[key]; ok && old.Synthetic == "" {
@@ -422,7 +425,160 @@ func (eng *Engine) modifiesKeysIface(c *FuncContract) *WriteSet {
 	return w
 }
 
+// scanWrites records, for every heap key, the repository functions other than package initialisers that
+// store to it, and which package-level variables are never written (or address-taken) after initialisation.
+func (eng *Engine) scanWrites() {
+	eng.immutableGlobal = map[string]bool{}
+	eng.writtenOutsideInit = map[string][]string{}
+	mutable := map[*ssa.Global]bool{}
+	var globals []*ssa.Global
+	for _, p := range eng.prog.AllPackages() {
+		path := p.Pkg.Path()
+		if !strings.HasPrefix(path, repoPrefix) && path != "github.com/mithrandie/ternary" {
+			continue
+		}
+		for _, m := range p.Members {
+			if g, ok := m.(*ssa.Global); ok {
+				globals = append(globals, g)
+			}
+		}
+	}
+	for fn := range ssautil.AllFunctions(eng.prog) {
+		if !eng.isRepoFunc(fn) || fn.Blocks == nil {
+			continue
+		}
+		isInit := fn.Name() == "init" || strings.HasPrefix(fn.Name(), "init#") || (fn.Parent() != nil && (fn.Parent().Name() == "init" || strings.HasPrefix(fn.Parent().Name(), "init#")))
+		for _, b := range fn.Blocks {
+			for _, in := range b.Instrs {
+				// any use of a global other than as the address of a load/store makes it mutable
+				for _, op := range in.Operands(nil) {
+					g, ok := (*op).(*ssa.Global)
+					if !ok {
+						continue
+					}
+					switch i := in.(type) {
+					case *ssa.UnOp:
+						continue
+					case *ssa.Store:
+						if i.Addr == g && i.Val != ssa.Value(g) {
+							if !isInit {
+								mutable[g] = true
+							}
+							continue
+						}
+					case *ssa.DebugRef:
+						continue
+					}
+					mutable[g] = true
+				}
+				if isInit {
+					continue
+				}
+				if st, ok := in.(*ssa.Store); ok {
+					l, ks := addrKeys(st.Addr)
+					if l == nil {
+						for _, k := range ks {
+							eng.writtenOutsideInit[k] = append(eng.writtenOutsideInit[k], shortName(fn.String()))
+						}
+					}
+				}
+			}
+		}
+	}
+	for _, g := range globals {
+		if !mutable[g] {
+			for _, k := range globalKeys(g) {
+				eng.immutableGlobal[k] = true
+			}
+		}
+	}
+}
+
+// invariantStable: the keys an invariant reads are written by package initialisation only.
+func (eng *Engine) invariantUnstable(inv *Axiom) []string {
+	ex := newExec(eng, nil, nil)
+	ex.inSpec = 1
+	ex.readKeys = map[string]bool{}
+	wm := Const("wm.inv", IntSort)
+	st := &State{pc: True, locals: map[*ssa.Alloc][]*Term{}, heap: newHeap(wm), wm: wm}
+	env := &Env{ex: ex, vars: map[string]Value{}, st: st, old: st, pkg: eng.pkgByName[inv.Pkg]}
+	if _, err := env.boolExpr(inv.E, false); err != nil {
+		return []string{"does not compile: " + err.Error()}
+	}
+	var bad []string
+	var keys []string
+	for k := range ex.readKeys {
+		keys = append(keys, k)
+	}
+	sort.Strings(keys)
+	for _, k := range keys {
+		if strings.HasPrefix(k, "G:") {
+			if !eng.immutableGlobal[k] {
+				bad = append(bad, k+" is written or address-taken outside package initialisation")
+			}
+			continue
+		}
+		if ws := eng.writtenOutsideInit[k]; len(ws) > 0 {
+			bad = append(bad, k+" is written by "+strings.Join(dedup(ws), ", "))
+		}
+	}
+	return bad
+}
+
+// specFootprint: heap keys read by the (fully unfolded) body of a spec function.
+func (eng *Engine) specFootprint(sf *SpecFunc) []string {
+	ex := newExec(eng, nil, nil)
+	ex.inSpec = 1
+	ex.readKeys = map[string]bool{}
+	ex.reveal = map[string]bool{}
+	for n := range eng.contracts.Specs {
+		ex.reveal[n] = true
+	}
+	wm := Const("wm.foot", IntSort)
+	st := &State{pc: True, locals: map[*ssa.Alloc][]*Term{}, heap: newHeap(wm), wm: wm}
+	pkg := eng.pkgByName[sf.Pkg]
+	env := &Env{ex: ex, vars: map[string]Value{}, st: st, old: st, pkg: pkg}
+	for _, p := range sf.Params {
+		pt, err := eng.parseType(p.Type, pkg)
+		if err != nil {
+			panic("spec " + sf.Name + ": " + err.Error())
+		}
+		env.vars[p.Name] = freshValue("foot."+p.Name, pt)
+	}
+	func() {
+		defer func() {
+			if r := recover(); r != nil {
+				if ce, ok := r.(compileErr); ok {
+					eng.bindingErrors = append(eng.bindingErrors, "spec "+sf.Name+": "+ce.msg)
+					return
+				}
+				panic(r)
+			}
+		}()
+		env.compile(sf.Body, 0)
+	}()
+	var keys []string
+	for k := range ex.readKeys {
+		keys = append(keys, k)
+	}
+	sort.Strings(keys)
+	return keys
+}
+
+func dedup(xs []string) []string {
+	seen := map[string]bool{}
+	var out []string
+	for _, x := range xs {
+		if !seen[x] {
+			seen[x] = true
+			out = append(out, x)
+		}
+	}
+	sort.Strings(out)
+	return out
+}
+
 func newExec(eng *Engine, fn *ssa.Function, c *FuncContract) *Exec {
-	return &Exec{eng: eng, topFn: fn, topC: c, assumeSeen: map[int]bool{}, warnSeen: map[string]bool{}, nameCount: map[string]int{},
+	return &Exec{usedInv: map[string]bool{}, specMemo: map[string]Value{}, eng: eng, topFn: fn, topC: c, assumeSeen: map[int]bool{}, warnSeen: map[string]bool{}, nameCount: map[string]int{},
 		abstracted: map[string]bool{}, inlined: map[string]bool{}, usedContr: map[string]bool{}, budget: 1}
 }
